@@ -50,7 +50,7 @@ def is_kw(value, keywords, ignorecase):
 _n = [0]
 
 
-def check(rules, keywords, ic_directive, ic_parse, text, cache=None):
+def check(rules, keywords, ic_directive, ic_parse, text, cache=None, history=None):
     """returns (detail|None, info)"""
     import tatsu
     rules = [(n, tup(x)) for n, x in rules]
@@ -96,7 +96,17 @@ def check(rules, keywords, ic_directive, ic_parse, text, cache=None):
             if gcls is not None:
                 colg = Collect()
                 from vf.props.c03 import parse_gen
-                g = _gen(gcls, text, colg, pkw)
+                # ONE generated-parser object per case, reused for every input (a parser object is meant to be reused); the settings may
+                # change from one parse to the next.  In a replay the earlier parses of the case are made first.
+                if cache is not None:
+                    ginst = cache.get('ginst') or cache.setdefault('ginst', gcls())
+                else:
+                    ginst = gcls()
+                    for ptext, picp in (history or []):
+                        _gen(ginst, ptext, Collect(), dict(ignorecase=False) if picp == 'off' else dict(ignorecase=True) if picp else {})
+                g = _gen(ginst, text, colg, pkw)
+                if cache is not None:
+                    cache.setdefault('ghist', []).append([text, ic_parse])
     except CaseTimeout:
         info['timeout'] = True
         return None, info
@@ -141,10 +151,10 @@ def _lastnode(rules):
                for _, x in rules for e in walk(x))
 
 
-def _gen(gcls, text, sem, pkw):
+def _gen(ginst, text, sem, pkw):
     from tatsu.exceptions import FailedParse, ParseException
     try:
-        a = gcls().parse(text, start='VF_WRAP', semantics=sem, **pkw)
+        a = ginst.parse(text, start='VF_WRAP', semantics=sem, **pkw)
     except FailedParse as e:
         return ('fail', type(e).__name__, e.pos)
     except ParseException as e:
@@ -214,6 +224,11 @@ def run_shard(sh, n):
                 text = gen.layout(rnd, lx, rnd.choice(['base', 'base', 'tight']))
                 if rnd.random() < 0.3:
                     text = text + ' ' + rnd.choice(pool)
+                icp0 = icp
+                if rnd.random() < 0.35:
+                    # this parse only: another ignorecase setting than the rest of the case (the objects are reused)
+                    icp = rnd.choice([x for x in (False, True, 'off') if x != icp0 and not (icd and x is True)])
+                hist = [list(h) for h in cache.get('ghist', [])]
                 d, info = check(rules, keywords, icd, icp, text, cache)
                 if 'model' not in cache:
                     if d is not None:
@@ -222,9 +237,12 @@ def run_shard(sh, n):
                 cls = [f'ident:{rules[-1][1][0]}', ('ignorecase:directive-overridden-off-at-parse' if icd else 'ignorecase:off-at-parse') if icp == 'off' else 'ignorecase:directive' if icd else 'ignorecase:parse' if icp else 'ignorecase:off', f'model:{info.get("model")}']
                 if info.get('kw_attempted'):
                     cls.append('keyword-attempted')
+                if icp != icp0:
+                    cls.append('settings change between parses on one parser object')
                 sh.case((gtext, icp, text), bool(info.get('kw_attempted')), cls, sample=dict(grammar=gtext, ignorecase_at_parse=icp, input=text))
                 if d is not None:
-                    sh.fail(d['bucket'], dict(rules=rules, keywords=keywords, icd=icd, icp=icp, input=text), d)
+                    sh.fail(d['bucket'], dict(rules=rules, keywords=keywords, icd=icd, icp=icp, input=text, history=hist), d)
+                icp = icp0
         finally:
             if cache.get('mod') is not None:
                 tu.unload(cache['mod'])
@@ -232,7 +250,7 @@ def run_shard(sh, n):
 
 
 def replay(case):
-    d, _ = check(case['rules'], case['keywords'], case['icd'], case['icp'], case['input'])
+    d, _ = check(case['rules'], case['keywords'], case['icd'], case['icp'], case['input'], history=case.get('history'))
     return d
 
 
@@ -241,6 +259,9 @@ def shrink_candidates(case):
     text = case['input']
     for i in range(len(text)):
         yield dict(case, input=text[:i] + text[i + 1:])
+    hist = case.get('history') or []
+    for i in range(len(hist)):
+        yield dict(case, history=hist[:i] + hist[i + 1:])
     kws = case['keywords']
     for i in range(len(kws)):
         if len(kws) > 1:
